@@ -269,6 +269,71 @@ def run_cases(ck: Check, n: int):
             ck.mismatch(stream, f"request {req[:60]}..: impl '{want[:150]}' vs model '{out[:150]}'", case)
 
 
+class _FakeDataset:
+    def __init__(self):
+        self.attrs = {}
+
+
+class _FakeFile(dict):
+    """in-memory stand-in for h5py.File: just enough for to_file of EMPTY members (scalar datasets)"""
+    store: dict = {}
+
+    def __init__(self, path, mode="r"):
+        super().__init__()
+        self.attrs = {}
+        if mode == "r":
+            self.update(_FakeFile.store.get(path, {}))
+        self._path = path
+
+    def create_dataset(self, key, shape=None, data=None):
+        ds = _FakeDataset()
+        self[key] = ds
+        return ds
+
+    def __enter__(self):
+        return self
+
+    def __exit__(self, *a):
+        _FakeFile.store[self._path] = dict(self)
+        return False
+
+
+def big_collection_probe(ck: Check):
+    """finding D13 on the real code path: write 10^6+1 (empty) members with the real to_file into an
+    in-memory stand-in for h5py and look at the order in which from_file would visit them"""
+    import sys
+    import types
+
+    from droplets.emulsions import Emulsion, EmulsionTimeCourse
+
+    n = 10**6 + 1
+    etc = EmulsionTimeCourse()
+    shared = Emulsion()
+    etc.emulsions = [shared] * n  # empty members; sharing one object keeps this cheap
+    etc.times = list(range(n))
+    fake = types.ModuleType("h5py")
+    fake.File = _FakeFile
+    real = sys.modules.get("h5py")
+    sys.modules["h5py"] = fake
+    try:
+        etc.to_file("mem://big")
+        with _FakeFile("mem://big", "r") as fp:
+            order = sorted(fp.keys())  # the iteration order of from_file
+            visited_times = [fp[k].attrs["time"] for k in (order[0], order[1], order[-1])]
+            first_bad = next((i for i, k in enumerate(order) if fp[k].attrs["time"] != i), None)
+    finally:
+        if real is not None:
+            sys.modules["h5py"] = real
+        else:
+            del sys.modules["h5py"]
+        _FakeFile.store.clear()
+    ck.case(("big-collection", n))
+    if first_bad is not None:
+        ck.fail(f"a time course with {n} members is read back in a different order: position {first_bad} holds the member written as number {visited_times[1] if first_bad == 1 else '...'} "
+                f"(keys sort as {order[first_bad - 1]}, {order[first_bad]}, ...)",
+                {"check": "key_order_beyond_1e6"}, {"kind": "big", "members": n, "first_out_of_order_position": first_bad})
+
+
 def replay(case: dict):
     ck = Check("C08", "quick", 0)
     run_cases(ck, 400)
@@ -288,3 +353,4 @@ def run(ck: Check):
         run_cases(ck, ck.budget(500, 8000))
     except RuntimeError as e:
         ck.mismatch("c08-layout", f"driver unavailable: {e}", {})
+    big_collection_probe(ck)
